@@ -33,6 +33,7 @@ type Params struct {
 	Init     string // none | zero | valid | oor
 	Gates    map[string]bool
 	SetupErr bool
+	RbMax    int // Consumer.Group.Rebalance.Retry.Max (default of the rig: 2)
 	CleanErr bool
 	CloseAny bool
 }
@@ -51,7 +52,7 @@ func atoi(v url.Values, k string, def int) int {
 func init() {
 	gx.RegisterRig("cg", func(v url.Values) (*gx.Scenario, error) {
 		p := &Params{Members: atoi(v, "m", 1), NParts: atoi(v, "np", 1), N: atoi(v, "n", 2), Mode: v.Get("mode"), NSess: atoi(v, "ns", 1),
-			Strategy: v.Get("strategy"), Init: v.Get("init"), SetupErr: atoi(v, "setuperr", 0) == 1, CleanErr: atoi(v, "cleanerr", 0) == 1, CloseAny: atoi(v, "closeany", 0) == 1}
+			Strategy: v.Get("strategy"), Init: v.Get("init"), SetupErr: atoi(v, "setuperr", 0) == 1, RbMax: atoi(v, "rbmax", 2), CleanErr: atoi(v, "cleanerr", 0) == 1, CloseAny: atoi(v, "closeany", 0) == 1}
 		if p.Mode == "" {
 			p.Mode = "all"
 		}
@@ -298,7 +299,7 @@ func run(c *gx.Ctl, p *Params) *gx.Outcome {
 		conf.Consumer.Offsets.Retry.Max = 1
 		conf.Consumer.Group.Heartbeat.Interval = time.Second
 		conf.Consumer.Group.Session.Timeout = 10 * time.Second
-		conf.Consumer.Group.Rebalance.Retry.Max = 2
+		conf.Consumer.Group.Rebalance.Retry.Max = p.RbMax
 		conf.Consumer.Group.Rebalance.Retry.Backoff = 50 * time.Millisecond
 		switch p.Strategy {
 		case "roundrobin":
